@@ -680,11 +680,31 @@ def rule_c16_r3(model: Model) -> RuleResult:
     f = model.func(f'{CLS}.PaneBase.__repr__')
     r.instances += 1
     r.analysed.add(f.qualname)
-    src = unparse(f.node)
-    if re.search(r'for field in self\.__pane_info__\.fields if field\.repr', src):
-        r.ok()
+    rcfg = cfg_of(model, f)
+    rnz = Normalizer(model, f, rcfg, param_map={f.params[0]: 'self'})
+    comps = []
+    for n_ in rcfg.live_nodes():
+        for root in node_exprs(n_):
+            for x in walk_no_nested(root):
+                if isinstance(x, (ast.GeneratorExp, ast.ListComp)) and len(x.generators) == 1 \
+                        and rnz.expr(x.generators[0].iter, n_) == 'self.__pane_info__.fields' and isinstance(x.generators[0].target, ast.Name):
+                    comps.append(x)
+    if len(comps) != 1:
+        r.fail(f.qualname, '__repr__', f.loc(), "repr must list exactly the repr-fields in field order (one pass over __pane_info__.fields)")
     else:
-        r.fail(f.qualname, '__repr__', f.loc(), "repr must list exactly the repr-fields in field order")
+        comp = comps[0]
+        v = comp.generators[0].target.id
+        conds = [unparse(c) for c in comp.generators[0].ifs]
+        used = sorted({x.attr for x in ast.walk(comp.elt) if isinstance(x, ast.Attribute) and isinstance(x.value, ast.Name) and x.value.id == v})
+        r.sample({'__repr__': {'filter': conds, 'field attributes shown': used}})
+        if conds != [f'{v}.repr']:
+            r.fail(f.qualname, f"__repr__ filters by {conds}", f.loc(comp), "repr must list exactly the repr-fields in field order")
+        elif used != ['name']:
+            r.fail(f.qualname, f"__repr__ labels fields by {used}", f.loc(comp),
+                   "repr shows `name=value` with the Python name of each repr-field (the keyword its constructor takes): labelling by the "
+                   "data-side name makes the repr of a renamed class name keys the constructor refuses")
+        else:
+            r.ok()
     # field(): hash defaults to compare
     ff = model.func('pane.field.field')
     fcfg = cfg_of(model, ff)
@@ -791,7 +811,18 @@ def rule_c16_r5(model: Model) -> RuleResult:
     r.instances += 1
     rets = [nz.expr(n.ast.value, n) for n in cfg.live_nodes() if n.kind == 'return' and n.ast is not None and n.ast.value is not None]
     r.sample({'__replace__': rets})
-    if rets and all(x.startswith('self.__class__(**') for x in rets):
+    unchecked = []
+    for x in ast.walk(f.node):
+        if isinstance(x, ast.keyword) and x.arg in ('_pane_checked', '_pane_from_dict') \
+                and not (x.arg == '_pane_checked' and isinstance(x.value, ast.Constant) and x.value.value is True):
+            unchecked.append(x.value)
+        elif isinstance(x, ast.Constant) and x.value in ('_pane_checked', '_pane_from_dict'):
+            unchecked.append(x)
+    if unchecked:
+        r.fail(f.qualname, f"replace passes `{unparse(unchecked[0])}` to the constructor's private switches", f.loc(unchecked[0]),
+               "replace must rebuild through the *checked* constructor: with validation switched off on some path a changed field keeps a "
+               "value of the wrong type / unconverted form (a bool where an int subtype differs, a value violating a condition)")
+    elif rets and all(re.match(r'(self\.__class__|type\(self\))\(\*\*', x) for x in rets):
         r.ok()
     else:
         r.fail(f.qualname, f"returns {rets}", f.loc(), "replace must rebuild through the checked constructor so that changed fields are re-validated")
@@ -802,7 +833,7 @@ def rule_c16_r5(model: Model) -> RuleResult:
 
 
 def rule_c17_r1(model: Model) -> RuleResult:
-    r = RuleResult('C17-R1', 'class options are inherited unless overridden: an unspecified option reaches the option record as None', floor=12)
+    r = RuleResult('C17-R1', 'class options are inherited unless overridden: an unspecified option reaches the option record as None', floor=13)
     f = model.func(f'{CLS}.PaneBase.__init_subclass__')
     cfg = cfg_of(model, f)
     nz = Normalizer(model, f, cfg, param_map=_pm(f))
@@ -832,6 +863,17 @@ def rule_c17_r1(model: Model) -> RuleResult:
         raise AnalysisError(f"{f.loc()}: no <options>.replace(...) call")
     n, c = rep
     rd = cfg.reaching()
+    # the record that is updated is the one the class inherits through normal attribute lookup (all bases, MRO order)
+    r.instances += 1
+    base_form = nz.expr(c.func.value, n) if isinstance(c.func, ast.Attribute) else ''
+    srcs = set(re.findall(r'((?:super\(\)|[\w$]+)(?:\.[\w]+|\[[^\]]*\])*)\.__pane_info__', base_form))
+    r.sample({'inherited record': base_form[:140]})
+    if srcs and srcs <= {'cls', 'super()'}:
+        r.ok()
+    else:
+        r.fail(f.qualname, f"options start from {base_form[:100]}", f.loc(c),
+               "the options a class inherits must be read from the class itself (attribute lookup walks every base in MRO order); reading "
+               "them from one chosen base loses the options whenever that base is a plain mixin or a second base carries them")
     for k in c.keywords:
         if k.arg is None:
             continue
